@@ -32,6 +32,7 @@ type SCert struct {
 	T       int64  `json:"t"`      // seconds after the epoch, for lapsing/starting
 	KeyID   string `json:"keyid"`  // class of the KeyID text
 	Comment string `json:"comment"`
+	Host    bool   `json:"host,omitempty"` // a host certificate (what gen-hostcert issues) instead of a user certificate
 }
 
 var epoch = sim.Epoch.Unix()
@@ -57,6 +58,10 @@ func window(c SCert) (va, vb uint64) {
 		return 0, uint64(math.MaxInt64) + 5
 	case "va_above":
 		return uint64(math.MaxInt64) + 1, ssh.CertTimeInfinity
+	case "future_forever":
+		return e + 5*365*86400, ssh.CertTimeInfinity // not yet valid, never expiring
+	case "starting_forever":
+		return e + uint64(c.T), ssh.CertTimeInfinity
 	}
 	return e - 1000, e + 10*365*86400
 }
@@ -145,7 +150,7 @@ func newCatalog(ks []SKey, cs []SCert) *catalog {
 	keys.ResetRSA()
 	for _, k := range ks {
 		c.keys[k.Role] = k
-		if k.Kind != keys.KindSK {
+		if k.Kind != keys.KindSK && !isOpaque(k.Kind) {
 			keys.Pub(k.Kind, c.keyLabel(k.Role)) // fixes the RSA pool assignment in plan order
 		}
 	}
@@ -178,8 +183,13 @@ func (c *catalog) pub(role string) ssh.PublicKey {
 	if k.Kind == keys.KindSK {
 		return keys.SKPub(c.keyLabel(role))
 	}
+	if isOpaque(k.Kind) {
+		return keys.OpaquePub(c.keyLabel(role), k.Kind == keys.KindOpaqueCert)
+	}
 	return keys.Pub(k.Kind, c.keyLabel(role))
 }
+
+func isOpaque(kind string) bool { return kind == keys.KindOpaque || kind == keys.KindOpaqueCert }
 
 // noSign reports whether the harness holds no private key for the role (security-key identities): such
 // identities can only be listed by the underlying agent.
@@ -187,7 +197,7 @@ func (c *catalog) noSign(role string) bool {
 	if x, ok := c.certs[role]; ok {
 		return c.keys[x.Key].Kind == keys.KindSK
 	}
-	return c.keys[role].Kind == keys.KindSK
+	return c.keys[role].Kind == keys.KindSK || isOpaque(c.keys[role].Kind)
 }
 
 func (c *catalog) cert(role string) *ssh.Certificate {
@@ -198,7 +208,7 @@ func (c *catalog) cert(role string) *ssh.Certificate {
 	k := c.keys[x.Key]
 	va, vb := window(x)
 	o := keys.Cert(keys.CertSpec{KeyKind: k.Kind, KeyLabel: c.keyLabel(x.Key), CALabel: "s", KeyID: keyIDText(x.KeyID, role),
-		Serial: roleSerial(role), Principals: []string{"user"}, ValidAfter: va, ValidBefore: vb})
+		Serial: roleSerial(role), Principals: []string{"user"}, ValidAfter: va, ValidBefore: vb, Host: x.Host})
 	c.cobj[role] = o
 	return o
 }
